@@ -298,6 +298,9 @@ def single_generic_impl(chk, F):
             args = [F.ty(a) if isinstance(a, int) else a for a in st["a"]]
             dims = args[2:]
             specialised = any(d.get("k") != "param" for d in dims)
+            if specialised and tr in ("From", "Into") and any(isinstance(a, int) and (F.adt_name(a) or "").startswith("Py")
+                                                              for a in imp.get("trait_args", [])):
+                continue  # conversion glue of the Python binding layer, not an operation
             if specialised and tr not in ("Copy",):
                 chk.ob("generic|%s|%s" % (ty, tr), False, "operations are implemented once, generically in the dimension",
                        F.loc(imp["l"]), found=F.ty(imp["self"]).get("s"), required="generic dimension parameters")
